@@ -298,6 +298,94 @@ server_reuse_cases(long long seed, int worker, int nworkers)
 	}
 }
 
+/*
+ * The limit over the life of a session: a client with small buffers makes a full handshake, closes, resumes the
+ * session on the same contexts (server with a session cache), and renegotiates. In every handshake of the three its
+ * ClientHello carries the request, the ServerHello echoes that code, the flag of the client says so, and every
+ * record the server sends after a ServerHello stays within the requested length - also the records of the
+ * abbreviated handshake and those protected with the keys of the renegotiation.
+ */
+static void
+session_mfl_cases(long long seed, int worker, int nworkers)
+{
+	static const uint16_t suites[4] = { 0x002F, 0xC02F, 0xCCA8, 0xC09C };
+	static br_ssl_session_cache_lru lru;
+	static unsigned char lru_store[3000];
+	int si, fi;
+	long idx = 0;
+	for (si = 0; si < 4; si ++) for (fi = 0; fi < 4; fi ++) {
+		tp_pair p;
+		tp_cfg cc, sc;
+		uint16_t sl[1];
+		int k;
+		char what[240];
+		size_t f = F[fi];
+		if ((idx ++ % nworkers) != worker) continue;
+		tp_pair_init(&p, (uint64_t)seed, 163, TP_CHUNK_WHOLE);
+		br_ssl_session_cache_lru_init(&lru, lru_store, sizeof lru_store);
+		for (k = 0; k < 3; k ++) {     /* 0: full handshake; 1: resumed; 2: renegotiation inside the resumed connection */
+			const unsigned char *ev;
+			size_t vl;
+			int ch_code = 0, sh_code = 0, i2, seen11 = 0;
+			snprintf(tp_case, sizeof tp_case, "seed=%lld session-mfl suite=%04x client-fragment=%zu step=%s", seed, suites[si], f,
+				k == 0 ? "full" : (k == 1 ? "resumed" : "renegotiated"));
+			if (k < 2) {
+				tp_cfg_default(&cc, 0); tp_cfg_default(&sc, 1);
+				cc.layout = TP_LAYOUT_SPLIT2; cc.buflen = f + 325; cc.buflen_out = f + 85;
+				sc.layout = TP_LAYOUT_SPLIT2; sc.buflen = BR_SSL_BUFSIZE_INPUT; sc.buflen_out = BR_SSL_BUFSIZE_OUTPUT;
+				cc.reuse_ctx = sc.reuse_ctx = k > 0; cc.resume = k > 0;
+				sc.cache = &lru.vtable;
+				sl[0] = suites[si]; cc.suites = sl; cc.nsuites = 1; cc.vmin = cc.vmax = suites[si] == 0x002F ? 0x0301 : 0x0303;
+				sc.keykind = tp_key_for_suite(tp_suite_find(sl[0]), 0);
+				memset(cc.seed, 0x71 + k, 32); memset(sc.seed, 0x81 + k, 32);
+				p.c2s.rd = p.c2s.wr = 0; p.s2c.rd = p.s2c.wr = 0;
+				if (k > 0) rm_free(&Z.pm.m.rm);
+				memset(&Z, 0, sizeof Z);
+				tm_pair_attach(&Z.pm, &p);
+				Z.pm.m.rec_hook = size_hook;
+				if (!tp_ep_start(&p.c, &cc) || !tp_ep_start(&p.s, &sc)) { TP_VIOL("setup:reset-failed", "reset failed"); break; }
+				p.c.tx_key = Z.pm.m.key[0]; p.c.rx_key = Z.pm.m.key[1]; p.s.tx_key = Z.pm.m.key[1]; p.s.rx_key = Z.pm.m.key[0];
+				if (!tp_handshake(&p, 1000000)) { TP_VIOL("session:handshake-failed", "handshake of a limited client failed"); break; }
+			} else {
+				int e0 = Z.pm.m.rm.cs[1].epoch;
+				Z.max_plain_after_sh = 0; Z.max_app_plain[1] = 0;
+				if (!tp_act_reneg(&p.c)) { TP_VIOL("session:renegotiation-refused", "renegotiation refused on an idle connection"); break; }
+				tp_settle(&p, 2000000);
+				if (!tp_ep_ready(&p.c) || !tp_ep_ready(&p.s) || Z.pm.m.rm.cs[1].epoch != e0 + 1) { TP_VIOL("session:renegotiation-incomplete", "renegotiation of a limited client did not complete"); break; }
+			}
+			for (i2 = 0; i2 < Z.pm.m.rm.n_hs[1]; i2 ++) if (Z.pm.m.rm.hs_types[1][i2] == 11) seen11 = 1;
+			if (k == 1 && seen11) { vf_stat("session_mfl_resumption_not_taken", 1); }
+			if (k == 1 && !seen11) vf_stat("session_mfl_resumed", 1);
+			ev = find_ext(Z.pm.m.rm.last_ch, Z.pm.m.rm.last_ch_len, 0, 1, &vl); if (ev && vl == 1) ch_code = ev[0];
+			ev = find_ext(Z.pm.m.rm.last_sh, Z.pm.m.rm.last_sh_len, 1, 1, &vl); if (ev && vl == 1) sh_code = ev[0];
+			if (ch_code != mfl_code(f)) {
+				snprintf(what, sizeof what, "ClientHello carries max_fragment_length code %d, the client's buffers call for %d", ch_code, mfl_code(f));
+				TP_VIOL("mfl:client-request-missing", what); break;
+			}
+			if (sh_code != ch_code) {
+				snprintf(what, sizeof what, "ServerHello carries code %d for a request of %d", sh_code, ch_code);
+				TP_VIOL("mfl:server-echo-missing", what); break;
+			}
+			if ((br_ssl_engine_get_mfln_negotiated(p.c.eng) != 0) != (sh_code != 0)) { TP_VIOL("mfl:negotiated-flag-wrong", "negotiated flag differs from the presence of the extension in this ServerHello"); break; }
+			/* the server writes 5 fragments' worth and the client a little */
+			tp_run_data(&p, p.c.tx_done + 100, p.s.tx_done + 5 * f + 17, TP_W_WHOLE, 4000000);
+			tp_settle(&p, 100000);
+			if (Z.max_plain_after_sh > f || Z.max_app_plain[1] > f) {
+				snprintf(what, sizeof what, "server sent a record with %zu plaintext bytes in the %s part of a session limited to %zu",
+					Z.max_plain_after_sh > Z.max_app_plain[1] ? Z.max_plain_after_sh : Z.max_app_plain[1], k == 0 ? "first" : (k == 1 ? "resumed" : "renegotiated"), f);
+				TP_VIOL("size:server-ignores-requested-length", what); break;
+			}
+			if (Z.max_app_plain[0] > f) { TP_VIOL("size:client-exceeds-own-request", "client sent a record above the length it asked for"); break; }
+			if (tp_ep_closed(&p.c) || tp_ep_closed(&p.s)) { TP_VIOL("stream:incomplete", "session of a limited client failed while data flowed"); break; }
+			vf_stat("session_mfl_steps_ok", 1);
+			vf_distinct("session_mfl", "%04x f%zu step%d", suites[si], f, k);
+			if (k == 0) tp_run_close(&p, 0, 100000);
+		}
+		rm_free(&Z.pm.m.rm);
+		tp_pair_free(&p);
+	}
+}
+
 int
 main(int argc, char **argv)
 {
@@ -590,6 +678,7 @@ main(int argc, char **argv)
 	}
 	reuse_cases(seed, worker, nworkers);
 	server_reuse_cases(seed, worker, nworkers);
+	session_mfl_cases(seed, worker, nworkers);
 	vf_stat("monitored_calls", tp_calls);
 	vf_done();
 	return 0;
